@@ -320,6 +320,8 @@ class Walker:
         if isinstance(t, ast.UnaryOp) and isinstance(t.op, ast.Not):
             a, b = self.cond(t.operand, p, kind)
             return b, a
+        if isinstance(t, ast.Call) and isinstance(t.func, ast.Name) and t.func.id == "bool" and len(t.args) == 1 and not t.keywords:
+            return self.cond(t.args[0], p, kind)  # bool(x) in a condition is the truth of x
         if isinstance(t, ast.BoolOp):
             is_and = isinstance(t.op, ast.And)
             live, done = [p], []
@@ -642,6 +644,10 @@ class Walker:
                     and len({len(a.elts) for a in it.args}) == 1:
                 # zip of literal sequences: a literal sequence of tuples
                 it = ast.Tuple(elts=[ast.Tuple(elts=[a.elts[i] for a in it.args], ctx=ast.Load()) for i in range(len(it.args[0].elts))], ctx=ast.Load())
+            if isinstance(it, ast.Call) and attr_chain(it.func) == "enumerate" and len(it.args) == 1 and not it.keywords and isinstance(it.args[0], (ast.List, ast.Tuple)) \
+                    and not any(isinstance(x, ast.Starred) for x in it.args[0].elts):
+                # enumerate of a literal sequence: a literal sequence of (index, element)
+                it = ast.Tuple(elts=[ast.Tuple(elts=[ast.Constant(value=i), x], ctx=ast.Load()) for i, x in enumerate(it.args[0].elts)], ctx=ast.Load())
             if isinstance(it, (ast.List, ast.Tuple)) and 1 <= len(it.elts) <= 8 and not s.orelse and not any(isinstance(x, ast.Starred) for x in it.elts) \
                     and not any(isinstance(n, (ast.Break, ast.Continue, ast.Return)) for b in s.body for n in ast.walk(b)):
                 # a loop over a literal list is unrolled exactly
